@@ -1271,7 +1271,7 @@ _FOR_LOOP = re.compile(
     r"(?:\s*,\s*(?:"
     r"(?:\(?)\s*[A-Za-z_][A-Za-z_0-9]*"
     r"(?:\s*,\s*(?:[A-Za-z_][A-Za-z_0-9]*),??)*\s*(?:\)?)"
-    r"),??)*\s*(?:\)?))\s+in\s+(.*):"
+    r"),??)*\s*(?:\)?))\s+in\s+(.*?):\s*(?:#.*)?$"
 )
 
 
@@ -1286,7 +1286,7 @@ def mangle_mako_loop(node, printer):
         match = _FOR_LOOP.match(node.text)
         if match:
             printer.writelines(
-                "loop = __M_loop._enter(%s)" % match.group(2),
+                "loop = __M_loop._enter((%s))" % match.group(2),
                 "try:",
                 # 'with __M_loop(%s) as loop:' % match.group(2)
             )
